@@ -21,9 +21,9 @@ META = dict(
     level="exploration",
     technique="segmentation metamorphic test (whole vs every 1-/2-cut split of short streams, random/bytewise/in-delimiter cuts of long ones) + independent reference framers + send/receive round trip",
     level_text="Grammar-built streams with message lengths clustered at MAX_LENGTH-1..MAX_LENGTH+len(delimiter)+1 and small MAX_LENGTH (1..40) for LineReceiver (with raw sections and pause/resume), LineOnlyReceiver, NetstringReceiver (valid and invalid) and Int8/16/32StringReceiver (with pause/resume). Every 1- and 2-cut split of streams up to 32 (thorough 48) bytes, plus a deterministic boundary grid that is enumerated completely; random cuts beyond. Sampled, not exhaustive over streams.",
-    level_note="Reference framers (ref_lines/ref_netstring/ref_intn) written from the format descriptions are trusted. Default oversize handlers only (they close; what follows a close is unspecified and not compared). A notification for an unterminated tail that can no longer become a legal message is accepted but not demanded; for netstrings a malformed byte that is the very last byte of the stream may be reported late (the real parser's `$` accepts a trailing newline until the next byte arrives). MAX_LENGTH >= 1. The deprecated `recvd` attribute of IntNStringReceiver is not exercised.",
+    level_note="Reference framers (ref_lines/ref_netstring/ref_intn) written from the format descriptions are trusted. Default oversize handlers only (they close; what follows a close is unspecified and not compared). A notification for an unterminated tail that can no longer become a legal message is accepted but not demanded; for netstrings a malformed byte that is the very last byte of the stream may be reported late (the real parser's `$` accepts a trailing newline until the next byte arrives). MAX_LENGTH >= 1. A LineReceiver application may change self.delimiter / self.MAX_LENGTH and an IntNStringReceiver application self.MAX_LENGTH from inside the message callback, driven by the message index (LineReceiver and IntNStringReceiver read them per message and AMP relies on it; LineOnlyReceiver and the netstring parser do not, so they are not re-configured). A NetstringReceiver object may have served an earlier connection (its makeConnection re-initializes the parser); the other receivers keep their buffer in the instance and are only used fresh. The deprecated `recvd` attribute of IntNStringReceiver is not exercised.",
     design_ref="§5 C16",
-    rule="case = (receiver, MAX_LENGTH, delimiter, stream or messages-to-send, raw/pause policy, segmentation). non-trivial = a cut falls inside (or, for 1-byte framing, next to) a delimiter / length prefix / netstring header or terminator whose message has a length within len(delimiter) (at least 1) of MAX_LENGTH; distinct by the whole tuple with the concrete cut list.",
+    rule="case = (receiver, MAX_LENGTH, delimiter, stream or messages-to-send, raw/pause/re-configuration policy, earlier connection of a reused netstring object, segmentation). non-trivial = a cut falls inside (or, for 1-byte framing, next to) a delimiter / length prefix / netstring header or terminator whose message has a length within len(delimiter) (at least 1) of MAX_LENGTH; distinct by the whole tuple with the concrete cut list.",
 )
 
 DELIMS = [b"\r\n", b"\n", b"\x00", b"--", b"abc", b"\r\n\r\n"]
@@ -43,7 +43,8 @@ LINEKINDS = ("line", "lineonly")
 #   marks  : (lo, hi, msglen) — a cut at lo <= p <= hi is "inside framing"
 #   badpos : offset of the byte that made the stream illegal (or None)
 
-def ref_lines(s, delim, mx, raw_after):
+def ref_lines(s, delim, mx, raw_after, reconf=None):
+    reconf = reconf or {}
     ev, starts, marks = [], [], []
     dl = len(delim)
     pos = 0
@@ -57,9 +58,9 @@ def ref_lines(s, delim, mx, raw_after):
             return ev, ("clean" if ok else "doomed"), starts, marks, None
         n = j - pos
         if dl > 1:
-            marks.append((j + 1, j + dl - 1, n))
+            marks.append((j + 1, j + dl - 1, n - mx))
         else:
-            marks.append((j, j + 1, n))
+            marks.append((j, j + 1, n - mx))
         starts.append(pos)
         if n > mx:
             ev += [("oversize",), ("close",)]
@@ -67,6 +68,12 @@ def ref_lines(s, delim, mx, raw_after):
             return ev, "final", starts, marks, j + dl - 1
         ev.append(("line", s[pos:j]))
         pos = j + dl
+        if i in reconf:       # the application re-configures the framing from lineReceived
+            nd, nm = reconf[i]
+            if nd is not None:
+                delim, dl = nd, len(nd)
+            if nm is not None:
+                mx = nm
         if i in raw_after:
             need = raw_after[i]
             chunk = s[pos:pos + need]
@@ -107,11 +114,11 @@ def ref_netstring(s, mx):
         if s[j] != 58:
             return bad(j)
         need = int(s[pos:j])
-        marks.append((pos + 1, j + 1, need))
+        marks.append((pos + 1, j + 1, need - mx))
         end = j + 1 + need
         if n < end + 1:
             return ev, "clean", starts, marks, None
-        marks.append((end, end, need))
+        marks.append((end, end, need - mx))
         if s[end] != 44:
             return bad(end)
         ev.append(("str", s[j + 1:end]))
@@ -120,10 +127,12 @@ def ref_netstring(s, mx):
     return ev, "clean", starts, marks, None
 
 
-def ref_intn(s, kind, mx):
+def ref_intn(s, kind, mx, reconf=None):
+    reconf = reconf or {}
     fmt, pl = PREFIX[kind]
     ev, starts, marks = [], [], []
     pos = 0
+    i = 0
     while True:
         starts.append(pos)
         if len(s) - pos < pl:
@@ -132,9 +141,9 @@ def ref_intn(s, kind, mx):
         for b in s[pos:pos + pl]:
             v = v * 256 + b
         if pl > 1:
-            marks.append((pos + 1, pos + pl, v))
+            marks.append((pos + 1, pos + pl, v - mx))
         else:
-            marks.append((pos, pos + 1, v))
+            marks.append((pos, pos + 1, v - mx))
         if v > mx:
             ev += [("oversize", v), ("close",)]
             starts.append(pos)
@@ -143,15 +152,30 @@ def ref_intn(s, kind, mx):
             return ev, "clean", starts, marks, None
         ev.append(("str", s[pos + pl:pos + pl + v]))
         pos += pl + v
+        if i in reconf and reconf[i][1] is not None:
+            mx = reconf[i][1]
+        i += 1
 
 
 def reference(case, stream):
     kind = case["recv"]
     if kind in LINEKINDS:
-        return ref_lines(stream, case["delim"], case["max"], _raw_after(case))
+        return ref_lines(stream, case["delim"], case["max"], _raw_after(case), _reconf(case))
     if kind == "netstring":
         return ref_netstring(stream, case["max"])
-    return ref_intn(stream, kind, case["max"])
+    return ref_intn(stream, kind, case["max"], _reconf(case))
+
+
+def _reconf(case):
+    """{message index: (new delimiter or None, new MAX_LENGTH or None)} — set by the application from
+    inside lineReceived / stringReceived (LineReceiver and IntNStringReceiver read their
+    configuration per message; AMP changes MAX_LENGTH this way)."""
+    if case["recv"] == "lineonly" or case["recv"] == "netstring" or "send" in case:
+        return {}
+    out = {}
+    for i, d, m in case.get("policy", {}).get("reconf", []):
+        out[int(i)] = (d if case["recv"] == "line" else None, m)
+    return out
 
 
 def _raw_after(case):
@@ -199,6 +223,7 @@ def _make(case):
     tr = _Transport(log)
     pol = case.get("policy", {})
     raw_after = _raw_after(case)
+    reconf = _reconf(case)
     pause_at = set(pol.get("pause", [])) if kind in ("line", "int8", "int16", "int32") else set()
     state = {"lines": 0, "need": 0, "acc": [], "inraw": False, "dropped": 0}
     holder = {}
@@ -217,6 +242,12 @@ def _make(case):
                 i = state["lines"]
                 state["lines"] += 1
                 rec(("line", line))
+                if i in reconf:
+                    nd, nm = reconf[i]
+                    if nd is not None:
+                        self.delimiter = nd
+                    if nm is not None:
+                        self.MAX_LENGTH = nm
                 if i in raw_after and not tr.disconnecting:
                     state["need"] = raw_after[i]
                     state["acc"] = []
@@ -253,7 +284,11 @@ def _make(case):
 
         class P(base):
             def stringReceived(self, s):
+                i = state["lines"]
+                state["lines"] += 1
                 rec(("str", s))
+                if i in reconf and reconf[i][1] is not None:
+                    self.MAX_LENGTH = reconf[i][1]
 
             def lengthLimitExceeded(self, length):
                 rec(("oversize", length))
@@ -281,6 +316,17 @@ def feed(case, segs):
     event i was recorded)."""
     p, tr, log, finish = _make(case)
     p.makeConnection(tr)
+    if case.get("prior") is not None and case["recv"] == "netstring":
+        # the same protocol object served an earlier connection (NetstringReceiver.makeConnection
+        # "initializes the protocol"); whatever that connection left behind must not leak
+        from twisted.python.failure import Failure
+        from twisted.internet.error import ConnectionDone
+        if case["prior"]:
+            p.dataReceived(case["prior"])
+        p.connectionLost(Failure(ConnectionDone()))
+        del log[:]
+        tr.disconnecting = False
+        p.makeConnection(tr)
     pausable = hasattr(p, "resumeProducing")
     lag = int(case.get("policy", {}).get("lag", 0))
     fedat = []
@@ -328,9 +374,10 @@ def mismatch(case, stream, ref, got, fedat):
     kind = case["recv"]
     mx = case["max"]
     rev, tail, starts, _marks, badpos = ref
+    static = not _reconf(case)
     # (3) direct limit check
     for e in got:
-        if _is_msg(e) and len(e[1]) > mx:
+        if static and _is_msg(e) and len(e[1]) > mx:
             return "delivered-overlong", f"delivered a {len(e[1])}-byte message with MAX_LENGTH={mx}"
     want = list(rev)
     if got == want:
@@ -349,7 +396,7 @@ def mismatch(case, stream, ref, got, fedat):
     w = want[i] if i < len(want) else None
     d = f"event {i}: real {g!r}, reference {w!r}; real={got!r} reference={want!r} tail={tail}"
     if g is not None and g[0] == "oversize" and (w is None or w[0] != "oversize"):
-        if kind in LINEKINDS:
+        if kind in LINEKINDS and static:
             delim = case["delim"]
             start = starts[i] if i < len(starts) else starts[-1]
             pend = stream[start:fedat[i]]
@@ -464,7 +511,7 @@ def run_case(ctx, case):
         ctx.violation(f"{kind}:send-encoding", case,
                       f"wire {stream!r} frames as {rev!r}, sent {direct!r}")
     dl = len(case["delim"]) if kind in LINEKINDS else 1
-    hot = [(lo, hi) for lo, hi, n in marks if abs(n - mx) <= max(1, dl)]
+    hot = [(lo, hi) for lo, hi, delta in marks if abs(delta) <= max(1, dl)]
 
     problems = []   # (sig, detail, cuts)
     whole, fw = feed(case, [stream] if stream else [])
@@ -483,7 +530,7 @@ def run_case(ctx, case):
             problems.append(("segmentation-dependent",
                              f"cuts {cuts}: {got!r} but whole delivery gives {whole!r}", cuts))
         if any(lo <= c <= hi for c in cuts for lo, hi in hot):
-            ctx.nontrivial((kind, mx, case.get("delim"), stream, case.get("policy"), tuple(cuts)))
+            ctx.nontrivial((kind, mx, case.get("delim"), stream, case.get("policy"), case.get("prior"), tuple(cuts)))
             ctx.count("nontrivial segmentations")
     if nseg > 1:
         ctx.case(nseg - 1)
@@ -497,6 +544,17 @@ def run_case(ctx, case):
         ctx.count("reference: illegal netstring")
     if any(e[0] in ("raw", "rawpart") for e in rev):
         ctx.count("has raw section")
+    rc = _reconf(case)
+    nmsgs = sum(1 for e in rev if _is_msg(e))
+    if any(i < nmsgs - 1 and d is not None for i, (d, m) in rc.items()):
+        ctx.count("delimiter changed from lineReceived with lines following")
+    if any(i < nmsgs - 1 and m is not None for i, (d, m) in rc.items()):
+        ctx.count("MAX_LENGTH changed from a callback with messages following")
+    if case.get("prior") is not None and kind == "netstring":
+        ctx.count("netstring: protocol object reused for a second connection")
+        pr = ref_netstring(case["prior"], mx)
+        if pr[1] == "final" or (case["prior"] and (not pr[2] or pr[2][-1] < len(case["prior"]))):
+            ctx.count("netstring: reused after a connection that ended mid-message or in a parse error")
     if case.get("policy", {}).get("pause") and kind not in ("lineonly", "netstring"):
         ctx.count("has pause")
     if sum(1 for e in rev if _is_msg(e) and len(e[1]) == mx):
@@ -535,6 +593,9 @@ def _policy(kind, nmsg):
     if kind in PREFIX:
         return st.fixed_dictionaries(dict(
             pause=st.lists(st.integers(0, nmsg + 2), max_size=3, unique=True),
+            reconf=st.lists(st.tuples(st.integers(0, max(0, nmsg - 1)), st.none(),
+                                      st.one_of(st.integers(1, 6), st.integers(1, 40))).map(list),
+                            max_size=1),
             lag=st.integers(0, 2)))
     return st.just({})
 
@@ -549,6 +610,13 @@ def line_cases(draw, all_limit):
     text = lambda n: st.lists(st.sampled_from(alpha), min_size=n, max_size=n).map(bytes)
     send = draw(st.integers(0, 4)) == 0
     nmsg = draw(st.integers(0, 4))
+    reconf = []
+    if kind == "line" and not send and nmsg >= 2 and draw(st.integers(0, 2)) == 0:
+        for idx in sorted(draw(st.lists(st.integers(0, nmsg - 2), min_size=1, max_size=2, unique=True))):
+            nd = draw(st.one_of(st.none(), st.sampled_from(DELIMS)))
+            nm = draw(st.one_of(st.none(), st.integers(1, 6), st.integers(1, 40)))
+            if nd is not None or nm is not None:
+                reconf.append([idx, nd, nm])
     if send:
         msgs = []
         for _ in range(nmsg):
@@ -560,9 +628,14 @@ def line_cases(draw, all_limit):
         total = sum(len(m) + dl for m in msgs)
     else:
         parts = []
-        for _ in range(nmsg):
-            parts.append(draw(_lens(mx, dl).flatmap(text)))
-            parts.append(draw(st.sampled_from([delim, delim, delim, delim[:-1], delim + delim[:1]])))
+        cd, cm = delim, mx      # the framing in force while the stream is being composed
+        changes = {r[0]: r for r in reconf}
+        for k in range(nmsg):
+            parts.append(draw(_lens(cm, len(cd)).flatmap(text)))
+            parts.append(draw(st.sampled_from([cd, cd, cd, cd[:-1], cd + cd[:1]])))
+            if k in changes:
+                cd = changes[k][1] if changes[k][1] is not None else cd
+                cm = changes[k][2] if changes[k][2] is not None else cm
         stream = b"".join(parts)
         trunc = draw(st.sampled_from([0, 0, 0, 1, 2, dl]))
         if trunc:
@@ -570,6 +643,8 @@ def line_cases(draw, all_limit):
         case = dict(recv=kind, max=mx, delim=delim, stream=stream)
         total = len(stream)
     case["policy"] = draw(_policy(kind, nmsg))
+    if reconf:
+        case["policy"]["reconf"] = reconf
     if total <= all_limit and draw(st.integers(0, 2)) > 0:
         case["cuts"] = "all12"
     else:
@@ -622,6 +697,12 @@ def netstring_cases(draw, all_limit):
             stream = stream[:max(0, len(stream) - trunc)]
         case = dict(recv="netstring", max=mx, stream=stream)
         total = len(stream)
+        if draw(st.integers(0, 3)) == 0:
+            # the protocol object already served a connection that ended like this
+            case["prior"] = draw(st.one_of(
+                st.sampled_from([b"", b"1", b"1:", b"2:a", b"1:a", b"x", b"1:ab", b"0:,", b"01", str(mx).encode()]),
+                st.tuples(small, st.integers(0, 3)).map(
+                    lambda t: (str(t[0]).encode() + b":" + b"z" * t[0] + b",")[:max(0, t[0] + 3 - t[1])])))
     case["policy"] = {}
     if total <= all_limit and draw(st.integers(0, 2)) > 0:
         case["cuts"] = "all12"
@@ -688,6 +769,23 @@ def grid_cases():
                         yield dict(recv=kind, max=mx, delim=delim,
                                    stream=b"a" * n + delim + b"\x01\x02\x03" + b"b" * mx + delim + b"c",
                                    policy=dict(raw=[[0, 3]], pause=[0, 1], lag=1), cuts="all12")
+    # framing renegotiated from lineReceived: the command line and what follows in one stream
+    for d1, d2 in ((b"\r\n", b"\n"), (b"\n", b"\r\n"), (b"\r\n", b"--"), (b"\x00", b"abc")):
+        for m1, m2 in ((2, 2), (2, 4), (4, 2)):
+            for n in (m2 - 1, m2, m2 + 1):
+                yield dict(recv="line", max=m1, delim=d1,
+                           stream=b"c" + d1 + b"b" * n + d2 + b"a" + d2 + b"a" + d1,
+                           policy=dict(reconf=[[0, d2 if d2 != d1 else None, m2 if m2 != m1 else None]]), cuts="all12")
+    for kind in sorted(PREFIX):
+        fmt = PREFIX[kind][0]
+        for m1, m2 in ((1, 3), (3, 1)):
+            for n in (m2 - 1, m2, m2 + 1):
+                yield dict(recv=kind, max=m1, stream=struct.pack(fmt, 1) + b"c" + struct.pack(fmt, n) + b"p" * n
+                           + struct.pack(fmt, 0), policy=dict(reconf=[[0, None, m2]], pause=[], lag=0), cuts="all12")
+    # a NetstringReceiver object reused for a second connection
+    for prior in (b"", b"5:ab", b"12", b"x", b"3:abc", b"2:ab,", b"1:a;", b"3"):
+        for mx in (3, 12):
+            yield dict(recv="netstring", max=mx, prior=prior, stream=b"1:q,2:rs,", policy={}, cuts="all12")
     for mx in (1, 2, 9, 10, 11):
         for n in (mx - 1, mx, mx + 1):
             for tailb in (b",", b";", b""):
